@@ -427,7 +427,7 @@ def decode(d, x, ctx, o=DEFAULT_OPTS):
         return collections.Counter(_ctor(dict, [(D(d[1], kk), _ctor(int, y)) for kk, y in _items(x, k)]))
     if k in ("opt", "optpipe"):
         if d[1][0] in ("union", "pep604"):
-            return decode_union(("union", d), x, ctx, o)   # typing flattens Optional[Union[...]]
+            return decode_union(d, x, ctx, o)   # typing flattens Optional[Union[...]]
         return None if x is None else D(d[1], x)
     if k == "tvbound":
         return None if x is None else D(d[1], x)
@@ -567,24 +567,7 @@ SCALAR_LEAVES = {"int": int, "float": float, "bool": bool, "str": str, "none": t
 
 def _flatten_union(d):
     """typing flattens nested unions and Optional[Union[...]]; the reference works on the flat list."""
-    out = []
-    for m in d[1:]:
-        if m[0] in ("union", "pep604"):
-            out.extend(_flatten_union(m))
-        elif m[0] in ("opt", "optpipe"):
-            inner = m[1]
-            if inner[0] in ("union", "pep604"):
-                out.extend(_flatten_union(inner))
-            else:
-                out.append(inner)
-            out.append(("leaf", "none"))
-        else:
-            out.append(m)
-    res = []
-    for m in out:
-        if m not in res:
-            res.append(m)
-    return res
+    return space.flat_members(d)
 
 
 def scalar_of(m):
@@ -817,7 +800,7 @@ def basic_only(x, native_types=()):
 def has_union3_with_none(d):
     """The schema has a union position with >= 3 (flattened) members one of which is None."""
     if d[0] in ("union", "pep604", "opt", "optpipe"):
-        ms = _flatten_union(d if d[0] in ("union", "pep604") else ("union", d))
+        ms = _flatten_union(d)
         if len(ms) >= 3 and ("leaf", "none") in ms:
             return True
     return any(has_union3_with_none(c) for c in space.children(d))
